@@ -25,123 +25,136 @@ func c09(c *hx.Ctx) {
 	c.Rule = "rwc.Conn over a re-chunked stream: written data 0..300 bytes (some 2000..5000 to cross connPktSize), chunkings 1-byte / all-at-once / random, reader buffer sizes from {0,1,2,3,7,16,100,2047,2048,4096} per Read, underlying end = io.EOF or a reset error (sometimes delivered together with the last bytes); Conn.Write over short-writing / failing writers; non-trivial = distinct run that returned data"
 	sizes := []int{0, 1, 2, 3, 7, 16, 100, 2047, 2048, 4096}
 	for i := 0; i < c.N; i++ {
-		n := c.Rng.Intn(80)
-		switch c.Rng.Intn(12) {
-		case 0:
-			n = 0
-		case 1:
-			n = 200 + c.Rng.Intn(100)
-		case 2:
-			if i%8 == 0 {
-				n = 2040 + c.Rng.Intn(600)
-			}
+		i := i
+		if p, v := hx.Catch(func() { c09read(c, i, sizes) }); p {
+			c.Failf("scenario-panic", map[string]any{"kind": "c09/read", "index": i, "panic": fmt.Sprint(v)}, "read scenario %d panicked (implementation or harness): %v", i, v)
 		}
-		data := make([]byte, n)
-		for k := range data { // position-dependent content: misplaced bytes are visible
-			data[k] = byte(k*7 + k/256*13 + c.Rng.Intn(3))
-		}
-		chunks, cname := chunksFor(c, n)
-		if n >= 2000 {
-			chunks = []int{1, 2100, 5, 2048}
-			if c.Rng.Intn(2) == 0 {
-				chunks = nil
-			}
-			cname = "large"
-		}
-		src := &pipeEnd{chunkReader: newChunkReader(data, chunks)}
-		ecls := 1
-		if c.Rng.Intn(3) == 0 {
-			src.endErr = errReset
-			ecls = 20
-		}
-		src.eofData = c.Rng.Intn(3) == 0
-		conn := rwc.NewConn(context.Background(), src, addr("l"), addr("r"), c.Rng.Intn(4))
-		// buffer sizes
-		big := c.Rng.Intn(3) == 0 // every buffer larger than everything written (and >= 2048)
-		var bufs []int
-		var obs []readObs
-		ends := 0
-		maxReads := 4 + c.Rng.Intn(12)
-		if n >= 2000 || cname == "1-byte" {
-			maxReads = 8 + c.Rng.Intn(8)
-		}
-		for r := 0; r < maxReads && ends < 2; r++ {
-			bl := sizes[c.Rng.Intn(len(sizes))]
-			if big {
-				bl = 2048 + c.Rng.Intn(2)*2048
-				if bl <= n {
-					bl = n + 1
-				}
-			}
-			buf := make([]byte, bl)
-			k, err := conn.Read(buf)
-			bufs = append(bufs, bl)
-			switch {
-			case err == nil:
-				obs = append(obs, readObs{data: append([]byte{}, buf[:k]...)})
-			case errors.Is(err, io.ErrShortBuffer):
-				obs = append(obs, readObs{data: append([]byte{}, buf[:k]...), short: true})
-			default:
-				ends++
-				e := 98
-				if errors.Is(err, io.EOF) {
-					e = 1
-				} else if errors.Is(err, errReset) {
-					e = 20
-				}
-				if k != 0 {
-					e = 97
-				}
-				obs = append(obs, readObs{end: e})
-			}
-		}
-		terms := make([]string, len(obs))
-		var od []string
-		for k, o := range obs {
-			if o.end != 0 {
-				terms[k] = hx.App("OEnd", hx.Nat(o.end))
-				od = append(od, fmt.Sprintf("end:%d", o.end))
-			} else {
-				terms[k] = hx.App("OData", hx.Bytes(o.data), hx.Bool(o.short), "[]")
-				od = append(od, fmt.Sprintf("%d:%v", len(o.data), o.short))
-			}
-		}
-		desc := map[string]any{"kind": "conn", "len": n, "data": hx.Hex(clip(data)), "chunking": cname, "chunks": chunks, "bufs": bufs, "end_error": ecls, "eof_with_data": src.eofData, "reads": od}
-		c.Case(hx.App("Cn", natList(chunks), hx.Bytes(data), hx.Nat(ecls), hx.NatList(bufs), hx.List(terms)), desc)
-		c.Class("conn/" + cname)
-		if big {
-			c.Class("conn/big-buffers")
-		}
-		if len(obs) > 0 && obs[0].end == 0 {
-			c.Nontrivial(fmt.Sprint(chunks, bufs, n))
-		}
-		connOracle(c, data, obs, ecls, big, desc)
 	}
 	// Conn.Write
 	for i := 0; i < c.N/5; i++ {
-		pkt := c.RandBytes(c.Rng.Intn(40))
-		var acc []accept
-		for k := c.Rng.Intn(5); k > 0; k-- {
-			acc = append(acc, accept{n: 1 + c.Rng.Intn(12), fail: c.Rng.Intn(6) == 0})
+		if p, v := hx.Catch(func() { c09write(c) }); p {
+			c.Failf("scenario-panic", map[string]any{"kind": "c09/write", "index": i, "panic": fmt.Sprint(v)}, "write scenario %d panicked (implementation or harness): %v", i, v)
 		}
-		sink := &pipeEnd{chunkReader: newChunkReader(nil, nil), accepts: append([]accept{}, acc...), werr: errReset}
-		conn := rwc.NewConn(context.Background(), sink, addr("l"), addr("r"), 1)
-		k, err := conn.Write(pkt)
-		items := make([]string, len(acc))
-		for j, a := range acc {
-			items[j] = fmt.Sprintf("(%d%%nat, %s)", a.n, hx.Bool(a.fail))
+	}
+}
+
+func c09read(c *hx.Ctx, i int, sizes []int) {
+	n := c.Rng.Intn(80)
+	switch c.Rng.Intn(12) {
+	case 0:
+		n = 0
+	case 1:
+		n = 200 + c.Rng.Intn(100)
+	case 2:
+		if i%8 == 0 {
+			n = 2040 + c.Rng.Intn(600)
 		}
-		desc := map[string]any{"kind": "conn/write", "pkt": hx.Hex(pkt), "accepts": fmt.Sprint(acc), "writes": hexes(sink.writes), "n": k, "err": err != nil}
-		c.Case(hx.App("Wr", hx.List(items), hx.Bytes(pkt), hx.BytesList(sink.writes), hx.Nat(k), hx.Bool(err != nil)), desc)
-		c.Class("conn/write")
-		// oracle: what reached the stream is a prefix of pkt of exactly the reported length; complete unless an error is reported
-		w := sink.written()
-		if k != len(w) || !bytes.HasPrefix(pkt, w) {
-			c.Failf("write-count-wrong", desc, "Write reported %d bytes, the stream received %x of %x", k, w, pkt)
+	}
+	data := make([]byte, n)
+	for k := range data { // position-dependent content: misplaced bytes are visible
+		data[k] = byte(k*7 + k/256*13 + c.Rng.Intn(3))
+	}
+	chunks, cname := chunksFor(c, n)
+	if n >= 2000 {
+		chunks = []int{1, 2100, 5, 2048}
+		if c.Rng.Intn(2) == 0 {
+			chunks = nil
 		}
-		if err == nil && k != len(pkt) {
-			c.Failf("write-incomplete-without-error", desc, "Write returned %d of %d bytes and no error", k, len(pkt))
+		cname = "large"
+	}
+	src := &pipeEnd{chunkReader: newChunkReader(data, chunks)}
+	ecls := 1
+	if c.Rng.Intn(3) == 0 {
+		src.endErr = errReset
+		ecls = 20
+	}
+	src.eofData = c.Rng.Intn(3) == 0
+	conn := rwc.NewConn(context.Background(), src, addr("l"), addr("r"), c.Rng.Intn(4))
+	// buffer sizes
+	big := c.Rng.Intn(3) == 0 // every buffer larger than everything written (and >= 2048)
+	var bufs []int
+	var obs []readObs
+	ends := 0
+	maxReads := 4 + c.Rng.Intn(12)
+	if n >= 2000 || cname == "1-byte" {
+		maxReads = 8 + c.Rng.Intn(8)
+	}
+	for r := 0; r < maxReads && ends < 2; r++ {
+		bl := sizes[c.Rng.Intn(len(sizes))]
+		if big {
+			bl = 2048 + c.Rng.Intn(2)*2048
+			if bl <= n {
+				bl = n + 1
+			}
 		}
+		buf := make([]byte, bl)
+		k, err := conn.Read(buf)
+		bufs = append(bufs, bl)
+		switch {
+		case err == nil:
+			obs = append(obs, readObs{data: append([]byte{}, buf[:k]...)})
+		case errors.Is(err, io.ErrShortBuffer):
+			obs = append(obs, readObs{data: append([]byte{}, buf[:k]...), short: true})
+		default:
+			ends++
+			e := 98
+			if errors.Is(err, io.EOF) {
+				e = 1
+			} else if errors.Is(err, errReset) {
+				e = 20
+			}
+			if k != 0 {
+				e = 97
+			}
+			obs = append(obs, readObs{end: e})
+		}
+	}
+	terms := make([]string, len(obs))
+	var od []string
+	for k, o := range obs {
+		if o.end != 0 {
+			terms[k] = hx.App("OEnd", hx.Nat(o.end))
+			od = append(od, fmt.Sprintf("end:%d", o.end))
+		} else {
+			terms[k] = hx.App("OData", hx.Bytes(o.data), hx.Bool(o.short), "[]")
+			od = append(od, fmt.Sprintf("%d:%v", len(o.data), o.short))
+		}
+	}
+	desc := map[string]any{"kind": "conn", "len": n, "data": hx.Hex(clip(data)), "chunking": cname, "chunks": chunks, "bufs": bufs, "end_error": ecls, "eof_with_data": src.eofData, "reads": od}
+	c.Case(hx.App("Cn", natList(chunks), hx.Bytes(data), hx.Nat(ecls), hx.NatList(bufs), hx.List(terms)), desc)
+	c.Class("conn/" + cname)
+	if big {
+		c.Class("conn/big-buffers")
+	}
+	if len(obs) > 0 && obs[0].end == 0 {
+		c.Nontrivial(fmt.Sprint(chunks, bufs, n))
+	}
+	connOracle(c, data, obs, ecls, big, desc)
+}
+
+func c09write(c *hx.Ctx) {
+	pkt := c.RandBytes(c.Rng.Intn(40))
+	var acc []accept
+	for k := c.Rng.Intn(5); k > 0; k-- {
+		acc = append(acc, accept{n: 1 + c.Rng.Intn(12), fail: c.Rng.Intn(6) == 0})
+	}
+	sink := &pipeEnd{chunkReader: newChunkReader(nil, nil), accepts: append([]accept{}, acc...), werr: errReset}
+	conn := rwc.NewConn(context.Background(), sink, addr("l"), addr("r"), 1)
+	k, err := conn.Write(pkt)
+	items := make([]string, len(acc))
+	for j, a := range acc {
+		items[j] = fmt.Sprintf("(%d%%nat, %s)", a.n, hx.Bool(a.fail))
+	}
+	desc := map[string]any{"kind": "conn/write", "pkt": hx.Hex(pkt), "accepts": fmt.Sprint(acc), "writes": hexes(sink.writes), "n": k, "err": err != nil}
+	c.Case(hx.App("Wr", hx.List(items), hx.Bytes(pkt), hx.BytesList(sink.writes), hx.Nat(k), hx.Bool(err != nil)), desc)
+	c.Class("conn/write")
+	// oracle: what reached the stream is a prefix of pkt of exactly the reported length; complete unless an error is reported
+	w := sink.written()
+	if k != len(w) || !bytes.HasPrefix(pkt, w) {
+		c.Failf("write-count-wrong", desc, "Write reported %d bytes, the stream received %x of %x", k, w, pkt)
+	}
+	if err == nil && k != len(pkt) {
+		c.Failf("write-incomplete-without-error", desc, "Write returned %d of %d bytes and no error", k, len(pkt))
 	}
 }
 
